@@ -111,7 +111,7 @@ fn check_spline(cfg: &sp::Cfg) -> Report {
 }
 
 /// mode O: no rejection / panic for non-NaN queries, and in-range bit-identity with the non-extrapolating twin
-fn check_o(cfg: &c05::Cfg) -> Report {
+pub fn check_o(cfg: &c05::Cfg) -> Report {
     with_ctx(|c| c.reset_all());
     with_ctx(|c| c.mode = Mode::O);
     let mut chk = Chk::new(Mode::O, cfg.timeout_ms);
